@@ -122,6 +122,15 @@ def handle (cmd : String) (args : List Int) : Option String :=
   | "C01.scrip" => do
       let c ← run (list keyRowP) args
       pure s!"{encPairs (scripNodes c)} {encRows (decodeScrip c)}"
+  | "C01.scrip_wf" => do
+      -- hypothesis of `scrip_positions` + the rows sent are Lean's `encScripRow w` of the faces
+      let (w, faces, rows) ← run (do
+        let w ← nat; let f ← list keyRowP; let r ← list keyRowP; pure (w, f, r)) args
+      pure (encBool (faces.all (fun f => !f.isEmpty && decide (f.length ≤ w) && LastDistinct f)
+        && rows == faces.map (encScripRow w)))
+  | "C01.scrip_asis" => do
+      let c ← run (list keyRowP) args
+      pure s!"{encPairs (scripNodes c)} {encRows (decodeScripAsIs c)}"
   | "C01.verts" => do
       let c ← run (list keyRowP) args
       let (nodes, t) := vertsDecode c
